@@ -53,7 +53,45 @@ def scratch_attrs(ctx: Ctx) -> Set[str]:
     # lazily cached derived attributes are not scratch: they hold a function of the configuration (R17.6 decides
     # that they are invalidated whenever the configuration changes)
     from . import caches
-    return out - set(caches.lazy_caches(ctx, ev))
+    return out - set(caches.lazy_caches(ctx, ev)) - size_keys(ctx, out)
+
+
+def size_keys(ctx: Ctx, candidates: Set[str]) -> Set[str]:
+    """Attributes that only remember for which size work buffers were allocated: every store is `self.k = <e>` and
+    every read is a direct `self.k == <e>` / `self.k != <e>` test against the same expression in the same
+    function.  Their value decides only whether buffers are re-allocated, never what a query returns (the buffers
+    themselves are subject to the typestate rule: they must be fully overwritten before use)."""
+    from ..index import mangle
+    ev = evolvent(ctx)
+    out = set()
+    for k in candidates:
+        ok, seen = True, False
+        for f in ev.methods.values():
+            if f.kind != 'function' or not f.param_names or f.name == '__init__':
+                continue
+            selfn = f.param_names[0]
+
+            def is_k(n):
+                return isinstance(n, ast.Attribute) and isinstance(n.value, ast.Name) and n.value.id == selfn and \
+                    mangle(ev.name, n.attr) == k
+            stored = {ast.unparse(st.value) for st in ast.walk(f.node) if isinstance(st, ast.Assign) and
+                      len(st.targets) == 1 and is_k(st.targets[0])}
+            cmp_ok = set()
+            for c in ast.walk(f.node):
+                if isinstance(c, ast.Compare) and len(c.ops) == 1 and isinstance(c.ops[0], (ast.Eq, ast.NotEq)):
+                    l, r = c.left, c.comparators[0]
+                    for a, b in ((l, r), (r, l)):
+                        if is_k(a) and (not stored or ast.unparse(b) in stored):
+                            cmp_ok.add(id(a))
+                            seen = True
+            for n in ast.walk(f.node):
+                if is_k(n) and isinstance(n.ctx, ast.Load) and id(n) not in cmp_ok:
+                    ok = False
+            if len(stored) > 1:
+                ok = False
+        if ok and seen:
+            out.add(k)
+    return out
 
 
 def r17_1_2_5(ctx: Ctx):
@@ -116,6 +154,12 @@ def r17_1_2_5(ctx: Ctx):
     scr = scratch_attrs(ctx)
     from . import caches as _caches
     lazy = set(_caches.lazy_caches(ctx, ev))
+    all_query_written = set()
+    for m_ in roles.mutations():
+        if roles.fq(m_.func) in pta.reachable(qs) and m_.kind == 'attr' and not m_.init_self and isinstance(m_.field, str) \
+                and any(o.cls is not None and o.cls.is_subclass_of(ev) for o in m_.bases):
+            all_query_written.add(m_.field)
+    lazy |= size_keys(ctx, all_query_written)
     ctx.analysed['scratch_attributes'] = sorted(scr)
     allowed_writers = {roles.fq(ev.methods[m]) for m in ('__init__', 'SetBounds') if m in ev.methods}
     # property setters / helpers that only the constructor and SetBounds use are part of them
@@ -251,6 +295,11 @@ def r17_3(ctx: Ctx, only=None):
                                      f'queries', key=f'{rid}::{q.short}::{a}::stale-update',
                                      detail={'guards': [repr(l) for l in p.guards][:8]})
                         continue
+                    if e.kind == 'call' and e.d['name'] == 'fill' and e.d.get('ext') and e.d.get('recv') is not None \
+                            and C.strip_versions(key_of(e.d['recv'])) == C.strip_versions(init_atom) and e.d['args']:
+                        # buffer.fill(c): every element is overwritten - the left-over contents are never used
+                        first[a] = 'def'
+                        continue
                     vals = []
                     if e.kind == 'store':
                         vals = [e.d['value']]
@@ -283,6 +332,8 @@ def r17_3(ctx: Ctx, only=None):
             name = src.d.get('callee') if src is not None else None
             if pinned == 'arith':
                 ctx.ok(rid, e.func.short, f'{a} := result of array arithmetic (a new array)', e.loc())
+            elif pinned is None and key_of(e.d['value']) == NONE:
+                ctx.ok(rid, e.func.short, f'{a} := None (an empty placeholder aliases nothing)', e.loc())
             elif pinned is None:
                 ctx.fail(rid, e.func.short, e.loc(), f'{a} is rebound to {C.fmt(e.d["value"])}, not to a freshly '
                                                      f'allocated array: the scratch aliases something else',
